@@ -1,2 +1,41 @@
-(* Property C14 — statements follow. *)
-From Nitro Require Import Opt.Run.
+(* Property C14 — parsing is repeatable: earlier parse calls never leak into later ones.  Only statements. *)
+From Coq Require Import List Arith Bool ZArith.
+From Coq Require Import Init.Byte.
+From Nitro Require Import Base.Bytes Base.Res Opt.Token Opt.Decl Opt.ParserModel Opt.ParserCore Opt.ParserSpec Opt.Vocab Opt.Run
+  Opt.RefineDefs Opt.Corollaries Opt.CoreEq Opt.History Opt.Positional Opt.Lexical Opt.Refine5 Opt.Sample.
+Import ListNotations.
+
+(* whatever state the option objects are in (any reachable state is aligned: C14_reachable_aligned), a call gives what a
+   freshly built identical parser gives *)
+Theorem C14_history_independent : forall d e st args, aligned d st ->
+  snd (parse d e st args) = snd (parse d e (init_st d) args).
+Proof. exact (history_independent truthy falsy). Qed.
+Print Assumptions C14_history_independent.
+Theorem C14_reachable_aligned : forall d e st args, aligned d st -> aligned d (fst (parse d e st args)).
+Proof. exact (parse_g_aligned truthy falsy). Qed.
+Print Assumptions C14_reachable_aligned.
+(* for every history of argument vectors — successful and failing ones in any order — the k-th result on the long-lived
+   object is the result of a fresh parser on the k-th vector *)
+Theorem C14_run_history_fresh : forall d e hist st, aligned d st ->
+  snd (history d e st hist) = map (fun args => snd (parse d e (init_st d) args)) hist.
+Proof. exact (run_history_fresh truthy falsy). Qed.
+Print Assumptions C14_run_history_fresh.
+(* the same when the environment changes between the calls *)
+Theorem C14_run_history_env_fresh : forall d hist st, aligned d st ->
+  snd (run_history_env truthy falsy d st hist) = map (fun ea => snd (parse d (fst ea) (init_st d) (snd ea))) hist.
+Proof. exact (run_history_env_fresh truthy falsy). Qed.
+Print Assumptions C14_run_history_env_fresh.
+(* hence the outcome depends only on declaration, argument vector and environment: it is the spec of that vector *)
+Theorem C14_outcome_is_function_of_inputs : forall d e st args,
+  wf_decl d = true -> no_clash d = true -> aligned d st -> snd (parse d e st args) = spec d e args.
+Proof. exact (parse_refines truthy falsy). Qed.
+Print Assumptions C14_outcome_is_function_of_inputs.
+
+Module Examples.
+Import Strings.String.
+Local Open Scope string_scope.
+Example C14_ex : let h := [[B "--out"; B "v"; B "-vv"]; [B "--unknown"]; [B "--out"; B "w"]; [B "-o=x"; B "--no-all"; B "p"]] in
+  snd (history sample_decl sample_env (init_st sample_decl) h) = map (fun a => snd (parse sample_decl sample_env (init_st sample_decl) a)) h
+  /\ map is_ok (snd (history sample_decl sample_env (init_st sample_decl) h)) = [true; false; true; true].
+Proof. vm_compute. split; reflexivity. Qed.
+End Examples.
